@@ -178,6 +178,8 @@ struct World {
     /// an arkworks gadget failed half-way on garbage operands: the constraint
     /// system's bookkeeping is off (a witness without assignment), nothing more is judged
     wrecked: bool,
+    /// set while the witness-tampering prover is active; appended to violation keys
+    tamper_tag: Option<&'static str>,
 }
 
 fn panic_msg(e: Box<dyn std::any::Any + Send>) -> String {
@@ -213,6 +215,10 @@ impl World {
         self.out.nontrivial = true;
     }
     fn viol(&mut self, prop: &'static str, inv: &'static str, key: String, detail: String) {
+        let key = match self.tamper_tag {
+            Some(t) => format!("{};witness_tamper={}", key, t),
+            None => key,
+        };
         self.trace.str("VIOL");
         self.trace.str(inv);
         if self.logging {
@@ -242,6 +248,8 @@ impl World {
         let n = self.es.len();
         if n == 0 {
             None
+        } else if i == LAST {
+            self.es.keys().next_back().copied()
         } else {
             self.es.keys().nth(i % n).copied()
         }
@@ -250,6 +258,8 @@ impl World {
         let n = self.fs.len();
         if n == 0 {
             None
+        } else if i == LAST {
+            self.fs.keys().next_back().copied()
         } else {
             self.fs.keys().nth(i % n).copied()
         }
@@ -258,6 +268,8 @@ impl World {
         let n = self.bs.len();
         if n == 0 {
             None
+        } else if i == LAST {
+            self.bs.keys().next_back().copied()
         } else {
             self.bs.keys().nth(i % n).copied()
         }
@@ -427,6 +439,7 @@ pub fn run(
         prefix_digests: Vec::new(),
         force_orders: BTreeMap::new(),
         wrecked: false,
+        tamper_tag: None,
     };
     // install the prover
     let hints = c.hints.clone();
@@ -538,7 +551,12 @@ pub fn run(
                 judge_c13_end(&mut w, sat);
             }
         }
-        Judge::C14 => judge_c14(&mut w, c, sat, &site_log.borrow()),
+        Judge::C14 => {
+            judge_c14(&mut w, c, sat, &site_log.borrow());
+            if c.tamper_bits && w.out.viols.is_empty() {
+                tamper_bits_phase(&mut w, c, &site_log.borrow());
+            }
+        }
     }
     // final observable values (after all accounting: reading may force)
     let mut finals = BTreeMap::new();
@@ -581,6 +599,100 @@ pub fn run(
         finals,
         sat,
     }
+}
+
+/// The prover owns the whole witness, not only the values the gadgets ask
+/// for through hints. This phase plays a prover who rewrites witnessed bit
+/// decompositions: every window of 253 consecutive boolean witnesses whose
+/// little-endian value v satisfies v + q < 2^253 is replaced by the bits of
+/// v + q (the same field element, opposite parity). A gadget that takes its
+/// sign from a *unique* decomposition makes every such system unsatisfied; if
+/// one stays satisfied, the recorded relations are judged on it.
+fn tamper_bits_phase(w: &mut World, c: &Circuit, sites: &[(Fq, bool, Fq, bool)]) {
+    const NBITS: usize = 253;
+    let q = &simcore::field::fq().p;
+    let limit = BigUint::from(1u32) << NBITS;
+    let original: Vec<Fq> = match w.cs.borrow() {
+        Some(cs) => cs.witness_assignment.clone(),
+        None => return,
+    };
+    let zero = Fq::from(0u64);
+    let one = Fq::from(1u64);
+    // locate the real decompositions: packing constraints 0 * 0 = sum 2^i b_(k+i) - x, i.e. rows of C that
+    // carry the coefficients 1, 2, 4, ..., 2^252 on 253 consecutive witness columns
+    let starts: Vec<usize> = {
+        let inner = match w.cs.borrow() {
+            Some(cs) => cs.clone(),
+            None => return,
+        };
+        let copy = ConstraintSystemRef::new(inner);
+        copy.finalize();
+        let m = match copy.to_matrices() {
+            Some(m) => m,
+            None => return,
+        };
+        let ni = m.num_instance_variables;
+        let mut pow2 = Vec::with_capacity(NBITS);
+        let mut p = one;
+        for _ in 0..NBITS {
+            pow2.push(p);
+            p = p + p;
+        }
+        let mut v = Vec::new();
+        for row in m.c.iter().filter(|r| r.len() >= NBITS) {
+            let map: BTreeMap<usize, Fq> = row.iter().filter(|(_, c)| *c >= ni).map(|(f, c)| (*c - ni, *f)).collect();
+            for (col, coeff) in map.iter() {
+                if *coeff == one && (1..NBITS).all(|i| map.get(&(col + i)) == Some(&pow2[i])) {
+                    v.push(*col);
+                }
+            }
+        }
+        v.sort();
+        v.dedup();
+        v
+    };
+    let isbit: Vec<bool> = original.iter().map(|x| *x == zero || *x == one).collect();
+    let mut tried = 0u64;
+    for k in starts {
+        if k + NBITS > original.len() || !isbit[k..k + NBITS].iter().all(|b| *b) {
+            continue;
+        }
+        let mut v = BigUint::from(0u32);
+        for i in (0..NBITS).rev() {
+            v = (v << 1) + BigUint::from((original[k + i] == one) as u32);
+        }
+        let alt = &v + q;
+        if v < *q && alt < limit {
+            tried += 1;
+            {
+                let mut cs = w.cs.borrow_mut().unwrap();
+                for i in 0..NBITS {
+                    cs.witness_assignment[k + i] = if alt.bit(i as u64) { one } else { zero };
+                }
+            }
+            let sat = w.cs.is_satisfied().ok();
+            if sat == Some(true) {
+                w.fault("bit_decomposition_rewritten_system_still_satisfied");
+                w.tamper_tag = Some("noncanonical_bits");
+                judge_c14(w, c, sat, sites);
+                w.tamper_tag = None;
+            }
+            {
+                let mut cs = w.cs.borrow_mut().unwrap();
+                for i in 0..NBITS {
+                    cs.witness_assignment[k + i] = original[k + i];
+                }
+            }
+            if !w.out.viols.is_empty() {
+                break;
+            }
+        }
+    }
+    if tried > 0 {
+        *w.out.probes.entry("bit_decomposition_windows_rewritten").or_insert(0) += tried;
+        w.out.nontrivial = true;
+    }
+    w.out.steps += tried;
 }
 
 fn bridge_is_square_inv(den: &Fq) -> bool {
